@@ -56,7 +56,7 @@ def run(ctx: Ctx) -> None:
         if not ctx.quick:
             cases.append((d, 2, "\r\n"))
     for _ in range(ctx.budget(2500, 40000)):
-        d = trees.rand_tree(rng, rng.choice([1, 2, 2, 3, 4]), leaves="THRMMMD", names="bbivsc")
+        d = trees.rand_tree(rng, rng.choice([1, 2, 2, 3, 4]), leaves="THRMMMD", names="bbivsck")
         cases.append((d, rng.randrange(0, 4), rng.choice(["\n", "\r\n", "", " "])))
 
     def impl(c):
